@@ -118,7 +118,9 @@ def build_pupil_wavefront(case):
     z = None
     for pl in case["planes"]:
         mask = None if pl["mask"] is None else pl["mask"].copy()
-        p = lentil.Pupil(amplitude=pl["amp"].copy(), opd=pl["opd"].copy(), mask=mask,
+        lay = ["C", "F", "strided", "reversed", "transposed_view"][(shape[0] + 2 * shape[1] + len(case["planes"])) % 5]
+        p = lentil.Pupil(amplitude=gen.relayout(pl["amp"].copy(), lay), opd=gen.relayout(pl["opd"].copy(), lay),
+                         mask=None if mask is None else gen.relayout(mask, lay),
                          pixelscale=cm.as_ps(case["dx"]), focal_length=pl["f"])
         w = w * p
         model = model * pm.phasor(shape, pl["amp"], pl["opd"], pl["mask"], wl)
